@@ -434,6 +434,16 @@ def m_c17(out) -> list[Violation]:
                     what = f"stage {ref} was {st} (with work still to do) when the cancel was processed but ends {fs[ref]}, not CANCELED"
                 vs.append(Violation(what=what, signature=sig, replay=_replay(out, {"final": fs})))
                 break
+        # a synthetic stage planned AFTER the cancel was processed (no CancelStage was ever sent for it): it must not be left
+        # unfinished in the cancelled workflow
+        for ref, st in fs.items():
+            if ref not in at_cancel and st not in COMPLETE and out["final"]["wf"] in COMPLETE:
+                vs.append(Violation(what=f"stage {ref} was created after the cancel was processed and is left {st} although the workflow "
+                                         f"ended {out['final']['wf']}",
+                                    signature=f"not-canceled:created-after-cancel:{st}:" +
+                                              ("chained" if spec_map(out).get(ref, {}).get("chain") or spec_map(out).get(ref, {}).get("reqs") else "initial"),
+                                    replay=_replay(out, {"final": fs})))
+                break
         if out["final"]["wf"] not in COMPLETE:
             vs.append(Violation(what=f"workflow is {out['final']['wf']} after the cancel was processed and the queue drained",
                                 signature="cancel-not-final", replay=_replay(out, {"final": fs})))
